@@ -10,6 +10,14 @@ package api
 // credential placement x identity x client IP. For every request the case records what the client presented, the
 // admit decision of the real manager for every administrative action (the `auth` oracle of the model), the observed
 // status and the class of the observed body.
+//
+// Client addresses. Every package starts TWO instances of its server: instance 0 is configured with one trusted proxy
+// (127.0.0.1/32), instance 1 with NO trusted proxies (the default configuration). The driver connects from two real
+// peer addresses, 127.0.0.1 (class 0: the trusted proxy of instance 0) and 127.0.0.2 (class 4: trusted by nobody), and
+// may add X-Forwarded-For / X-Real-Ip headers naming one of the classes 1..3 (or a loopback class). The address the
+// server is ENTITLED to believe is the forwarded one only when the real peer is a configured trusted proxy; otherwise
+// it is the real peer, whatever the headers say. The case records the peer, what the headers name, and whether the
+// peer is a configured trusted proxy (computed from the configuration, not from the server's behaviour).
 
 import (
 	"bytes"
@@ -39,7 +47,8 @@ type vC04User struct {
 	Perms      [][2]string // (action, path); path "" = every path
 }
 
-var vC04IPs = map[int]string{1: "10.1.1.1", 2: "10.9.9.9", 3: "10.3.3.3"}
+// classes 0 and 4 are real peer addresses (the driver connects from them); 1..3 only ever appear in forwarding headers
+var vC04IPs = map[int]string{0: "127.0.0.1", 1: "10.1.1.1", 2: "10.9.9.9", 3: "10.3.3.3", 4: "127.0.0.2"}
 
 // the permission matrix
 var vC04Users = []vC04User{
@@ -51,6 +60,9 @@ var vC04Users = []vC04User{
 	{"pball", "pballpass", []int{1}, [][2]string{{"playback", ""}}},
 	{"reader", "readpass", nil, [][2]string{{"read", ""}, {"publish", ""}}},
 	{"any", "", []int{3}, [][2]string{{"metrics", ""}}},
+	// admitted only from the real loopback peer (like the default configuration's `any` from 127.0.0.1 / ::1)
+	{"louser", "lopass", []int{0}, [][2]string{{"api", ""}, {"metrics", ""}, {"pprof", ""}, {"playback", ""}}},
+	{"any", "", []int{0}, [][2]string{{"pprof", ""}}},
 }
 
 func vC04Manager() *auth.Manager {
@@ -72,8 +84,13 @@ func vC04Manager() *auth.Manager {
 	return &auth.Manager{Method: conf.AuthMethodInternal, InternalUsers: us, ReadTimeout: 5 * time.Second}
 }
 
-func vC04TrustedProxies() conf.IPNetworks {
-	_, n, _ := net.ParseCIDR("127.0.0.0/8")
+// the trusted-proxy configuration of the two instances every driver starts: instance 0 trusts the peer 127.0.0.1 only,
+// instance 1 trusts nobody (the default: an empty list)
+func vC04TrustedProxies(inst int) conf.IPNetworks {
+	if inst != 0 {
+		return nil
+	}
+	_, n, _ := net.ParseCIDR("127.0.0.1/32")
 	return conf.IPNetworks{conf.IPNetwork(*n)}
 }
 
@@ -136,9 +153,17 @@ func vC04Routes(h http.Handler) []vC04Route {
 	return out
 }
 
+// both instances of a server must register the same routes (the trusted-proxy setting has nothing to do with them)
+func vC04SameRoutes(t *testing.T, h0, h1 http.Handler) {
+	a, b := vC04Routes(h0), vC04Routes(h1)
+	if fmt.Sprint(a) != fmt.Sprint(b) {
+		t.Fatalf("the two instances list different routes:\n%v\n%v", a, b)
+	}
+}
+
 type vC04Spec struct {
-	Server string // api metrics pprof playback
-	Base   string // http://127.0.0.1:port
+	Server string    // api metrics pprof playback
+	Bases  [2]string // http://127.0.0.1:port of instance 0 (trusted proxy 127.0.0.1) and instance 1 (no trusted proxies)
 	Routes []vC04Route
 	Seen   *vC04Seen
 	Share  int // percentage of VERIF_N this server gets
@@ -151,7 +176,11 @@ type vC04Req struct {
 	ident            string // user name presented (or "" / "nobody")
 	pass             string
 	placement        string // none basic bearer-up bearer-token query
-	ipClass          int
+	ipClass          int // the class the client address is MEANT to be (generator's intent; the case records peer / headers)
+	inst             int // 0: instance with trusted proxy 127.0.0.1/32; 1: instance without trusted proxies
+	peer             int // real peer address class: 0 (127.0.0.1) or 4 (127.0.0.2)
+	xff, xreal       int // class named by X-Forwarded-For / X-Real-Ip, -1 = header absent
+	pmode            string
 	qpath            string
 	hasPath          bool
 	marker           string
@@ -188,8 +217,14 @@ func vC04Marker(r *vRand) string {
 	return fmt.Sprintf("%08x-%04x-4%03x-%04x-%012x", uint32(a>>32), uint16(a>>16), uint16(a)&0xfff, 0x8000|uint16(b>>48)&0x3fff, b&0xffffffffffff)
 }
 
-func vC04Gen(r *vRand, sp vC04Spec, n int) []*vC04Req {
+func vC04Gen(r *vRand, sp vC04Spec, nAll int) []*vC04Req {
 	var out []*vC04Req
+	// about a third of the budget goes to the client-address cases (both instances, both peers, forwarding headers)
+	nProxy := nAll * 3 / 10
+	if nProxy < 10 {
+		nProxy = 10
+	}
+	n := nAll - nProxy
 	listed := map[vC04Route]bool{}
 	for _, rt := range sp.Routes {
 		listed[rt] = true
@@ -267,6 +302,8 @@ func vC04Gen(r *vRand, sp vC04Spec, n int) []*vC04Req {
 				q.placement = "none"
 			}
 		}
+		// through the trusted proxy of instance 0, which names the client in X-Forwarded-For
+		q.inst, q.peer, q.xff, q.xreal, q.pmode = 0, 0, q.ipClass, -1, "proxied"
 		if sp.Server == "playback" {
 			q.hasPath = !r.Chance(1, 15)
 			q.qpath = vPick(r, vC04PlaybackPaths)
@@ -332,6 +369,84 @@ func vC04Gen(r *vRand, sp vC04Spec, n int) []*vC04Req {
 		}
 		out = thin
 	}
+
+	// ---- client-address cases -------------------------------------------------------------------------------------
+	setUser := func(q *vC04Req, name string) {
+		q.ident, q.pass = name, passOf[name]
+		q.placement = vPick(r, []string{"basic", "bearer-up"})
+		if name == "" {
+			q.pass, q.placement = "", "none"
+		}
+	}
+	claim := func(q *vC04Req, cls int) { // which header(s) carry the claimed address
+		switch r.Intn(4) {
+		case 0:
+			q.xff, q.xreal = cls, -1
+		case 1:
+			q.xff, q.xreal = -1, cls
+		case 2:
+			q.xff, q.xreal = cls, cls
+		default:
+			q.xff, q.xreal = cls, vPick(r, []int{0, 1, 2, 3}) // X-Forwarded-For is looked at first
+		}
+	}
+	mkp := func(method, pattern, pm string) *vC04Req {
+		q := mk(method, pattern, 2)
+		q.pmode = pm
+		wantData := false
+		switch pm {
+		case "spoof-no-proxies": // instance without trusted proxies; the headers name an address admin is admitted from
+			q.inst, q.peer = 1, vPick(r, []int{0, 4})
+			setUser(q, "admin")
+			claim(q, 1)
+		case "spoof-any": // no credentials; the headers name an address `any` is admitted from (3: metrics, 0: pprof)
+			q.inst, q.peer = 1, 4
+			setUser(q, "")
+			claim(q, vPick(r, []int{0, 3}))
+		case "spoof-loopback": // a peer that is not 127.0.0.1 claims to be 127.0.0.1
+			q.inst, q.peer = vPick(r, []int{0, 1}), 4
+			setUser(q, "louser")
+			claim(q, 0)
+		case "spoof-untrusted-peer": // instance with a trusted proxy, but the peer is not that proxy
+			q.inst, q.peer = 0, 4
+			setUser(q, "admin")
+			claim(q, 1)
+		case "direct-loopback": // the real peer is admitted; on the instance without proxies, whatever the headers say
+			q.inst, q.peer = vPick(r, []int{0, 1}), 0
+			setUser(q, "louser")
+			q.xff, q.xreal = -1, -1
+			if q.inst == 1 && r.Chance(2, 3) {
+				claim(q, vPick(r, []int{1, 2, 3, 4}))
+			}
+			wantData = true
+		case "proxied-real-ip": // the trusted proxy names the client in X-Real-Ip only
+			q.inst, q.peer, q.xff, q.xreal = 0, 0, -1, 1
+			setUser(q, "admin")
+			wantData = true
+		default: // "random"
+			q.inst, q.peer = r.Intn(2), vPick(r, []int{0, 4})
+			setUser(q, vPick(r, []string{"admin", "admin", "louser", "louser", "", "apiuser", "ppuser", "pball", "nobody"}))
+			q.xff, q.xreal = vPick(r, []int{-1, -1, 0, 1, 1, 3, 4}), vPick(r, []int{-1, -1, -1, 0, 1, 3})
+		}
+		if sp.Server == "playback" && (wantData || r.Chance(3, 4)) {
+			q.hasPath, q.qpath = true, "cam1"
+		}
+		return q
+	}
+	pmodes := []string{"spoof-no-proxies", "spoof-no-proxies", "spoof-any", "spoof-loopback", "spoof-untrusted-peer",
+		"direct-loopback", "direct-loopback", "proxied-real-ip", "random", "random"}
+	for i := 0; i < nProxy && len(sp.Routes) > 0; i++ {
+		rt := sp.Routes[i%len(sp.Routes)]
+		pm := vPick(r, pmodes)
+		if i < len(sp.Routes) && i%2 == 0 { // the first pass over the routes: the plain spoof on every other route
+			pm = "spoof-no-proxies"
+		}
+		m, p := rt.Method, rt.Pattern
+		if pm == "random" && r.Chance(1, 6) {
+			m = vPick(r, vC04Methods)
+		}
+		out = append(out, mkp(m, p, pm))
+	}
 	for i, q := range out {
 		q.idx = i
 	}
@@ -378,13 +493,18 @@ func (q *vC04Req) build(sp vC04Spec) *http.Request {
 		v.Set("token", q.pass)
 		v.Set("jwt", q.pass)
 	}
-	hdr.Set("X-Forwarded-For", vC04IPs[q.ipClass])
+	if q.xff >= 0 {
+		hdr.Set("X-Forwarded-For", vC04IPs[q.xff])
+	}
+	if q.xreal >= 0 {
+		hdr.Set("X-Real-Ip", vC04IPs[q.xreal])
+	}
 	if q.acrm {
 		hdr.Set("Access-Control-Request-Method", "GET")
 		hdr.Set("Origin", "http://example.org")
 	}
 	q.rawQuery = v.Encode()
-	q.url = sp.Base + vC04Instantiate(q.pattern, q.marker)
+	q.url = sp.Bases[q.inst] + vC04Instantiate(q.pattern, q.marker)
 	if q.rawQuery != "" {
 		q.url += "?" + q.rawQuery
 	}
@@ -450,10 +570,15 @@ func vC04Run(t *testing.T, sp vC04Spec, mgr *auth.Manager) {
 	}
 	reqs := vC04Gen(r, sp, n)
 
-	tr := &http.Transport{MaxIdleConnsPerHost: 64, DisableCompression: true}
-	hc := &http.Client{Transport: tr, Timeout: 60 * time.Second,
-		CheckRedirect: func(*http.Request, []*http.Request) error { return http.ErrUseLastResponse }}
-	defer tr.CloseIdleConnections()
+	// one client per real peer address (the connection is made FROM that address)
+	hcs := map[int]*http.Client{}
+	for _, cls := range []int{0, 4} {
+		d := &net.Dialer{Timeout: 10 * time.Second, LocalAddr: &net.TCPAddr{IP: net.ParseIP(vC04IPs[cls])}}
+		tr := &http.Transport{MaxIdleConnsPerHost: 64, DisableCompression: true, DialContext: d.DialContext}
+		hcs[cls] = &http.Client{Transport: tr, Timeout: 60 * time.Second,
+			CheckRedirect: func(*http.Request, []*http.Request) error { return http.ErrUseLastResponse }}
+		defer tr.CloseIdleConnections()
+	}
 
 	workers := vEnvInt("VERIF_C04_PAR", 64)
 	ch := make(chan *vC04Req)
@@ -463,6 +588,7 @@ func vC04Run(t *testing.T, sp vC04Spec, mgr *auth.Manager) {
 		go func() {
 			defer wg.Done()
 			for q := range ch {
+				hc := hcs[q.peer]
 				res, err := hc.Do(q.build(sp))
 				for try := 0; err != nil && try < 2; try++ { // e.g. the server closed an idle connection under us
 					time.Sleep(50 * time.Millisecond)
@@ -496,20 +622,40 @@ func vC04Run(t *testing.T, sp vC04Spec, mgr *auth.Manager) {
 			continue
 		}
 		pathValid := conf.IsValidPathName(q.qpath) == nil
+		// what the forwarding headers name (gin looks at X-Forwarded-For first), and whether the real peer is one of the
+		// trusted proxies this instance was CONFIGURED with
+		fwd := q.xff
+		if fwd < 0 {
+			fwd = q.xreal
+		}
+		trustsPeer := vC04TrustedProxies(q.inst).Contains(net.ParseIP(vC04IPs[q.peer]))
+		believed := q.peer
+		if trustsPeer && fwd >= 0 {
+			believed = fwd
+		}
+		// the manager's decisions for a client at the real peer address, and for one at the forwarded address
 		var orc []string
 		orcDesc := map[string]bool{}
-		for _, o := range vC04Oracles {
-			ar := &auth.Request{Action: o.Action, Query: q.rawQuery,
-				Credentials: &auth.Credentials{User: q.effUser, Pass: q.effPass, Token: q.effToken},
-				IP:          net.ParseIP(vC04IPs[q.ipClass]), EnableAskCredentials: true}
-			key := o.Act
-			if o.WithPath {
-				ar.Path = q.qpath
-				key += "@path"
+		for _, from := range []struct {
+			tag string
+			cls int
+		}{{"peer:", q.peer}, {"forwarded:", fwd}} {
+			if from.cls < 0 {
+				from.cls = q.peer
 			}
-			_, aerr := mgr.Authenticate(ar)
-			orc = append(orc, cqBool(aerr == nil))
-			orcDesc[key] = aerr == nil
+			for _, o := range vC04Oracles {
+				ar := &auth.Request{Action: o.Action, Query: q.rawQuery,
+					Credentials: &auth.Credentials{User: q.effUser, Pass: q.effPass, Token: q.effToken},
+					IP:          net.ParseIP(vC04IPs[from.cls]), EnableAskCredentials: true}
+				key := from.tag + o.Act
+				if o.WithPath {
+					ar.Path = q.qpath
+					key += "@path"
+				}
+				_, aerr := mgr.Authenticate(ar)
+				orc = append(orc, cqBool(aerr == nil))
+				orcDesc[key] = aerr == nil
+			}
 		}
 		bc := vC04BodyClass(q.body, sp.Server)
 		touched := sp.Seen.Has(q.marker) || sp.Seen.Has("c04p"+strings.ReplaceAll(q.marker, "-", ""))
@@ -532,17 +678,30 @@ func vC04Run(t *testing.T, sp vC04Spec, mgr *auth.Manager) {
 		} else {
 			class += fmt.Sprintf("/%d", q.status)
 		}
-		class += "/" + q.placement
+		if q.pmode == "proxied" {
+			class += "/" + q.placement
+		} else {
+			class += "/addr:" + q.pmode
+		}
 
 		coq := cqApp("Req", vC04Str(sp.Server), vC04Str(q.method), vC04Str(q.pattern), cqBool(q.listed), cqBool(q.acrm),
-			cqBytes(q.effUser), cqBytes(q.effPass), cqZ(int64(q.ipClass)), cqBytes(q.qpath), cqBool(pathValid),
+			cqBytes(q.effUser), cqBytes(q.effPass), cqBool(trustsPeer), cqZ(int64(q.peer)), cqZ(int64(fwd)), cqBytes(q.qpath), cqBool(pathValid),
 			strings.Join(orc, " "), cqZ(int64(q.status)), bc, cqBool(touched))
 		bs := string(q.body)
 		if len(bs) > 160 {
 			bs = bs[:160] + "..."
 		}
-		desc := map[string]any{"server": sp.Server, "method": q.method, "pattern": q.pattern, "url": strings.TrimPrefix(q.url, sp.Base),
-			"listed": q.listed, "acrm": q.acrm, "user": q.ident, "pass": q.pass, "placement": q.placement, "ip": vC04IPs[q.ipClass],
+		hdrDesc := func(c int) string {
+			if c < 0 {
+				return ""
+			}
+			return vC04IPs[c]
+		}
+		desc := map[string]any{"server": sp.Server, "method": q.method, "pattern": q.pattern, "url": strings.TrimPrefix(q.url, sp.Bases[q.inst]),
+			"listed": q.listed, "acrm": q.acrm, "user": q.ident, "pass": q.pass, "placement": q.placement,
+			"instance": []string{"trusted proxies: 127.0.0.1/32", "no trusted proxies"}[q.inst], "peer": vC04IPs[q.peer],
+			"x_forwarded_for": hdrDesc(q.xff), "x_real_ip": hdrDesc(q.xreal), "peer_is_trusted_proxy": trustsPeer,
+			"entitled_client_ip": vC04IPs[believed], "mode": q.pmode,
 			"path": q.qpath, "oracle": orcDesc, "status": q.status, "body_class": bc, "touched": touched, "body": bs}
 		out.Case(coq, desc, class, data || q.status == 401)
 	}
